@@ -20,6 +20,7 @@ func GenLockScript(r *Rng, hist map[string]int) []string {
 	}
 	add("open %s", c)
 	n := 3 + r.Intn(10)
+	busyDone := false
 	for i := 0; i < n; i++ {
 		switch r.Intn(8) {
 		case 0, 1:
@@ -91,6 +92,22 @@ func GenLockScript(r *Rng, hist map[string]int) []string {
 				add("files")
 				hist["lock_stray_lock_file_in_merge_directory"]++
 			}
+		case 5:
+			if busyDone {
+				add("put %s @%d:%d", engKeys[r.Intn(5)], 1+r.Intn(30), r.Intn(9999))
+				break
+			}
+			busyDone = true
+			// Merge calls that overlap: whatever they answer, none may keep the engine lock - Close must return and the
+			// directory must be free for the next opener
+			add("put %s @%d:%d", engKeys[r.Intn(5)], 1+r.Intn(30), r.Intn(9999))
+			add("mergebusy")
+			add("close")
+			add("openchild %s", genCfg(r, o2, hist))
+			c = genCfg(r, o, hist)
+			add("open %s", c)
+			add("dump")
+			hist["lock_close_after_overlapping_merges"]++
 		default:
 			add("put %s @%d:%d", engKeys[r.Intn(5)], 1+r.Intn(30), r.Intn(9999))
 		}
